@@ -278,7 +278,7 @@ def run_c14(pid, tier, seed, ctx, P):
         if rc != 0 or out != want:
             k = next((j for j in range(min(len(out), len(want))) if out[j] != want[j]), min(len(out), len(want)))
             fails.append(("stdout_channel: %d writes totalling %d bytes produced %d bytes on standard output (exit %d); first difference at offset %d" % (
-                len(chunks), len(want), len(out), rc, k), ["X stdout " + " ".join(script[:40])]))
+                len(chunks), len(want), len(out), rc, k), ["X stdout " + " ".join(script[:4000])]))
             break
     # the same terminal operations through stdout_channel and through a capturing channel
     nops = 60 if tier == "quick" else 600
@@ -315,3 +315,37 @@ def run_c14(pid, tier, seed, ctx, P):
             if p.stdout != want:
                 fails.append(("examples/hello_world wrote %r to standard output, expected %r" % (p.stdout[:80], want), ["X hello_world"]))
     return fails, stats
+
+
+def replay_c14(ctx, lines):
+    """re-runs a replay file of C14: lines 'X stdout <items>' (write scripts) are
+    executed through the real stdout_channel in a child process; returns a list of
+    failure descriptions"""
+    out = []
+    exe = ctx.impl["asan"]
+    for l in lines:
+        t = l.split()
+        if len(t) < 2 or t[0] != "X" or t[1] != "stdout":
+            continue
+        items, script, want = t[2:], [], b""
+        i = 0
+        while i < len(items):
+            it = items[i]
+            if it.startswith("!"):
+                if it in ("!width", "!fill"):
+                    script.append(it + " " + items[i + 1]); i += 1
+                elif it == "!host":
+                    script.append(it + " " + items[i + 1]); want += bytes.fromhex(items[i + 1]); i += 1
+                else:
+                    script.append(it)
+                    if it == "!exit":
+                        break
+            else:
+                script.append(it)
+                want += bytes.fromhex(it) if it != "-" else b""
+            i += 1
+        rc, got, err = run_child(exe, "stdout", "".join(x + "\n" for x in script).encode())
+        if rc != 0 or got != want:
+            k = next((j for j in range(min(len(got), len(want))) if got[j] != want[j]), min(len(got), len(want)))
+            out.append("stdout_channel: %d bytes expected on standard output, %d arrived (exit %d), first difference at offset %d" % (len(want), len(got), rc, k))
+    return out
